@@ -204,6 +204,24 @@ def translate(src: Path) -> dict:
         dd = ast.unparse(find_func(dc.body, '_disconnect_detached'))
         if 'asyncio.shield' not in dd or 'self.disconnect(reason)' not in dd or 'ensure_future' not in dd:
             raise Refuse('_disconnect_detached: expected await asyncio.shield(asyncio.ensure_future(self.disconnect(reason)))')
+    # exceptions.py + _create_peer_connection_fallback: does every way a direct attempt fails (ConnectionFailedError from connect(),
+    # ConnectionWriteError from the PeerInit write, PeerConnectionError from the lookup) reach the handler that starts the indirect attempt?
+    exc_tree = ast.parse((src / 'aioslsk' / 'exceptions.py').read_text())
+    bases = {n.name: [ast.unparse(b) for b in n.bases] for n in exc_tree.body if isinstance(n, ast.ClassDef)}
+
+    def descends(name, anc, seen=()):
+        if name == anc:
+            return True
+        return any(descends(b, anc, seen + (name,)) for b in bases.get(name, []) if b not in seen)
+    fb = find_func(cls.body, '_create_peer_connection_fallback')
+    fb_try = [n for n in fb.body if isinstance(n, ast.Try)]
+    if len(fb_try) != 1 or len(fb_try[0].handlers) != 1 or 'self._make_direct_connection(' not in ast.unparse(ast.Module(body=fb_try[0].body, type_ignores=[])) \
+            or 'self._make_indirect_connection(' not in ast.unparse(ast.Module(body=fb_try[0].handlers[0].body, type_ignores=[])):
+        raise Refuse('_create_peer_connection_fallback: expected try: direct / except <errors>: indirect')
+    h0 = fb_try[0].handlers[0]
+    caught = [ast.unparse(t) for t in (h0.type.elts if isinstance(h0.type, ast.Tuple) else [h0.type])] if h0.type is not None else ['BaseException']
+    falls_back = all(any(c in ('Exception', 'BaseException') or descends(e, c) for c in caught)
+                     for e in ('ConnectionFailedError', 'ConnectionWriteError', 'PeerConnectionError'))
     # Network._on_connect_to_peer: is every relayed ConnectToPeer request handed to _handle_connect_to_peer?
     octp = find_func(cls.body, '_on_connect_to_peer')
     ob = [st for st in octp.body if not (isinstance(st, ast.Expr) and isinstance(st.value, ast.Constant))]
@@ -213,6 +231,7 @@ def translate(src: Path) -> dict:
         raise Refuse('_on_connect_to_peer: the task creation changed')
     handles_all = len(ob) == 3
     flags = [
+        ('DIRECT_FAILURES_FALL_BACK', falls_back, 'fallback mode: every failure of the direct attempt (connect, PeerInit write, address lookup) is caught by the handler that starts the indirect attempt (exception hierarchy of exceptions.py)'),
         ('RESPONDER_HANDLES_EVERY_REQUEST', handles_all, '_on_connect_to_peer starts _handle_connect_to_peer for every ConnectToPeer request (no earlier return / condition)'),
         ('SEND_FAILURE_DISCONNECT_DETACHED', send_detached, 'DataConnection._send closes the connection from a shielded task of its own when the write fails'),
         ('INDIRECT_CLOSES_ARRIVED_ON_CANCEL', ind_closes_arrived, '_make_indirect_connection cancelled after the pierce connection arrived disconnects that connection'),
